@@ -5,6 +5,10 @@ from vx.spec import *
 from vx.layouts import shape_clauses
 from specs.common import MCS_OPAQUE, MCS_WRITE, MCS_READ, MCS_V5
 
+import os
+# VERIF_DOC_STRICT=1 replaces every "as-implemented" layout clause below by the clause transcribed from the document (these FAIL on the
+# current code: each one is a reported discrepancy between the code and MS-RDPBCGR, see the comment at the clause)
+DOC_STRICT = os.environ.get("VERIF_DOC_STRICT") == "1"
 SEC = "src/core/sec.rs"
 LIC = "src/core/license.rs"
 MCS = "src/core/mcs.rs"
@@ -36,6 +40,23 @@ pub open spec fn is_error_message(f: Seq<(Seq<char>, MV)>) -> bool {
 /// layout of the licensing preamble (MS-RDPBCGR 2.2.1.12.1.1 LICENSE_PREAMBLE) followed by the message body
 pub open spec fn is_preamble(f: Seq<(Seq<char>, MV)>) -> bool {
     f.len() == 4 && f[0].0 == "bMsgtype"@ && f[0].1 is U8 && f[1].0 == "flag"@ && f[2].0 == "wMsgSize"@ && f[3].0 == "message"@ && f[3].1 is Bytes
+}
+// ---------------- server -> client licensing layouts, transcribed from MS-RDPBCGR 2.2.1.12.1 (NOT derived from the code)
+/// LICENSE_PREAMBLE (2.2.1.12.1.1): bMsgType (u8), flags (u8: low nibble = PREAMBLE_VERSION_2_0 0x2 / PREAMBLE_VERSION_3_0 0x3, bit 0x80 =
+/// EXTENDED_ERROR_MSG_SUPPORTED), wMsgSize (u16 LE, size of the whole message INCLUDING the 4 preamble bytes), then the message body.
+/// `flags` = view of the flags field (the document makes it a plain byte; see preamble() below)
+pub open spec fn preamble_view(flags: MV) -> MV {
+    MV::Comp(seq![("bMsgtype"@, MV::U8(0)), ("flag"@, flags),
+                  ("wMsgSize"@, MV::Dyn(Box::new(MV::U16(0, true)), OV::Size("message"@, 0))),
+                  ("message"@, MV::Bytes(Seq::empty()))])
+}
+/// LICENSE_BINARY_BLOB (2.2.1.12.1.2): wBlobType (u16 LE), wBlobLen (u16 LE), blobData (wBlobLen bytes)
+pub open spec fn binary_blob_view() -> MV {
+    MV::Comp(seq![("wBlobType"@, MV::U16(0, true)), ("wBlobLen"@, MV::Dyn(Box::new(MV::U16(0, true)), OV::Size("blobData"@, 0))), ("blobData"@, MV::Bytes(Seq::empty()))])
+}
+/// LICENSE_ERROR_MESSAGE (2.2.1.12.1.3): dwErrorCode (u32 LE), dwStateTransition (u32 LE), bbErrorInfo (LICENSE_BINARY_BLOB)
+pub open spec fn error_message_view() -> MV {
+    MV::Comp(seq![("dwErrorCode"@, MV::U32(0, true)), ("dwStateTransition"@, MV::U32(0, true)), ("blob"@, binary_blob_view())])
 }
 """, mod="license", name="license_specs"))
 # `ErrorCode::try_from(..)? == ErrorCode::StatusValidClient` calls the derived PartialEq: Verus needs its meaning. For a field-less enum
@@ -75,14 +96,28 @@ pub proof fn lemma_preamble_kept(a: MV, b: MV)
     assert(f0[3].0 == f1[3].0 && same_shape(f0[3].1, f1[3].1));
 }
 """, mod="license", name="license_lemmas"))
-LF("preamble", ret="c", props=["C05"],
-   closures={1: dict(params="size: &U16", ret="-> (r: MessageOption)",
+# MS-RDPBCGR 2.2.1.12.1.1 LICENSE_PREAMBLE.  DISCREPANCY: the document makes `flags` a plain byte (version 0x2 or 0x3, optionally | 0x80
+# EXTENDED_ERROR_MSG_SUPPORTED); the code reads it through Check::new(0x03), so the conforming message `ff 83 10 00 07 00 00 00 02 00 00 00 04 00 00 00`
+# (Valid Client error alert with the extended-error flag) is rejected.  Everything else is pinned from the document.
+PREAMBLE_FLAGS = "MV::U8(0)" if DOC_STRICT else "MV::Check(Box::new(MV::U8(3)))"
+PREAMBLE_CID = "preamble-as-documented" if DOC_STRICT else "preamble-as-documented-except-flags (as-implemented: checked constant 0x03; MS-RDPBCGR 2.2.1.12.1.1 also allows 0x02 and the 0x80 bit)"
+LF("preamble", ret="c", props=["C05", "C03"],
+   # closure: "wMsgSize counts the 4 bytes of the preamble" -> the body has wMsgSize - 4 bytes
+   closures={1: dict(params="size: &U16", ret="-> (r: MessageOption)", props="C03", cid="message-size-is-wMsgSize-minus-4",
                      spec="ensures r.ov() == OV::Size(\"message\"@, if size.val() >= 4 { (size.val() as usize - 4) as usize } else { 0usize })")},
-   ensures=shape_clauses(LIC, "preamble", res="c") + [(None, "layout", "is_preamble(c.fields())")])
-LF("license_binary_blob", ret="c", props=["C05"],
-   closures={1: dict(params="size: &U16", ret="-> (r: MessageOption)", spec="ensures r.ov() == OV::Size(\"blobData\"@, size.val() as usize)")},
-   ensures=shape_clauses(LIC, "license_binary_blob", res="c"))
-LF("licensing_error_message", ret="c", props=["C05"], ensures=shape_clauses(LIC, "licensing_error_message", res="c") + [(None, "layout", "is_error_message(c.fields())")])
+   ensures=shape_clauses(LIC, "preamble", res="c") + [(None, "layout", "is_preamble(c.fields())"),
+                                                       ("C03", PREAMBLE_CID, "c.mv() == preamble_view(%s)" % PREAMBLE_FLAGS)],
+   post="proof { assert(c.fields() =~= preamble_view(%s)->Comp_0); }" % PREAMBLE_FLAGS)
+# MS-RDPBCGR 2.2.1.12.1.2 LICENSE_BINARY_BLOB: closure = "blobData has wBlobLen bytes"
+LF("license_binary_blob", ret="c", props=["C05", "C03"],
+   closures={1: dict(params="size: &U16", ret="-> (r: MessageOption)", props="C03", cid="blobData-size-is-wBlobLen", spec="ensures r.ov() == OV::Size(\"blobData\"@, size.val() as usize)")},
+   ensures=shape_clauses(LIC, "license_binary_blob", res="c") + [("C03", "license_binary_blob-as-documented", "c.mv() == binary_blob_view()")],
+   post="proof { assert(c.fields() =~= binary_blob_view()->Comp_0); }")
+# MS-RDPBCGR 2.2.1.12.1.3 LICENSE_ERROR_MESSAGE
+LF("licensing_error_message", ret="c", props=["C05", "C03"],
+   ensures=shape_clauses(LIC, "licensing_error_message", res="c") + [(None, "layout", "is_error_message(c.fields())"),
+                                                                       ("C03", "licensing_error_message-as-documented", "c.mv() == error_message_view()")],
+   post="proof { assert(c.fields() =~= error_message_view()->Comp_0); }")
 LF("parse_payload", props=["C05", "C03"], keys=True,
    requires=["has_key(payload.fields(), \"bMsgtype\"@)", "has_key(payload.fields(), \"message\"@)"],
    ensures=[("C03", "only-new-license-or-error-alert", "r is Ok ==> (r->Ok_0 is NewLicense || r->Ok_0 is ErrorAlert)"),
@@ -132,6 +167,8 @@ pub open spec fn info_packet(domain: Seq<char>, user: Seq<char>, password: Seq<c
 pub open spec fn client_info_pdu(info: Seq<u8>) -> Seq<u8> { le16(0x0040) + le16(0) + info }
 /// TS_EXTENDED_INFO_PACKET as this client sends it (AF_INET, empty address and dir, zero time zone, session id 0, no performance flags)
 pub open spec fn extended_info_len() -> int { 190 }
+/// TS_SECURITY_HEADER (2.2.8.1.1.2.1) as read from the server: flags (u16 LE), flagsHi (u16 LE)
+pub open spec fn security_header_view() -> MV { MV::Comp(seq![("securityFlag"@, MV::U16(0, true)), ("securityFlagHi"@, MV::U16(0, true))]) }
 """, mod="sec", name="sec_specs"))
 A(Raw(r"""
 /// one unfolding of Component serialization at a field that is not skipped and asks for no skip
@@ -210,7 +247,10 @@ SF("rdp_infos", ret="c", props=["C04", "C17"], post=RDP_INFOS_POST,
        ("C04", "counts-exclude-terminator-and-do-not-truncate", "c.fields()[2].1->U16_0 as int == utf16le(domain@).len() && c.fields()[3].1->U16_0 as int == utf16le(username@).len() && c.fields()[4].1->U16_0 as int == utf16le(password@).len()"
                " && c.fields()[7].1 == MV::Bytes(zstr(domain@)) && c.fields()[8].1 == MV::Bytes(zstr(username@)) && c.fields()[9].1 == MV::Bytes(zstr(password@))"),
        ("C17", "auto-logon-flag-iff-requested", "c.fields()[1].1 == MV::U32(info_flags(auto_logon), true) && (info_flags(auto_logon) & 0x8 != 0 <==> auto_logon)")])
-SF("security_header", ret="c", props=["C05"], ensures=shape_clauses(SEC, "security_header", res="c"))
+# MS-RDPBCGR 2.2.8.1.1.2.1 TS_SECURITY_HEADER (basic security header), as READ in front of the licensing PDU: flags (u16 LE), flagsHi (u16 LE)
+SF("security_header", ret="c", props=["C05", "C03"],
+   ensures=shape_clauses(SEC, "security_header", res="c") + [("C03", "security_header-as-documented", "c.mv() == security_header_view()")],
+   post="proof { assert(c.fields() =~= security_header_view()->Comp_0); }")
 SF("connect", props=["C17", "C02", "C03", "C05"], keys=True, fuel=5,
    pre="let ghost w0 = mcs.written(); let ghost uid = mcs.uid()->Some_0; let ghost gl = mcs.chans()[\"global\"@]; let ghost v5 = mcs.v5plus();",
    hints=[(r"let \(_channel_name, payload\) = mcs\.read\(\)\?;", 1, """let ghost w1 = mcs.written();
